@@ -185,7 +185,8 @@ def run_case(case):
         flyers = [Dev("flyA"), Dev("flyB")][:rng.randint(1, 2)]
         staged_list = rng.sample(devs, k=min(len(devs), rng.randint(1, 3)))
         cbs = [lambda n, d: None, lambda n, d: None]
-        sub_spec = rng.choice([cbs[0], [cbs[0], cbs[1]], {"event": [cbs[0]], "stop": [cbs[1]]}])
+        sub_spec = rng.choice([cbs[0], [cbs[0], cbs[1]], {"event": [cbs[0]], "stop": [cbs[1]]},
+                               {"start": [cbs[0]], "stop": [cbs[0]]}, [cbs[0], cbs[0]]])   # (the same callable twice)
         susp = [object(), object()][:rng.randint(1, 2)]
 
         def build():
